@@ -46,7 +46,15 @@ func genCronSys(r *rand.Rand, n int, tier string) []Case {
 		var ops []interface{}
 		for j := 0; j < 3+r.Intn(5); j++ {
 			o := map[string]interface{}{"loc": locs[r.Intn(k)], "id": ids[r.Intn(len(ids))]}
-			switch r.Intn(7) {
+			switch r.Intn(9) {
+			case 7:
+				// a scheduled rule that depends on a fact (deleteWith) ...
+				o["op"] = "adddepsched"
+				o["delay_ms"] = []interface{}{200.0, 400.0}[r.Intn(2)]
+			case 8:
+				// ... and the removal of that fact: the cascade removes the rule, and its job must go - the
+				// job of THIS location's rule, whatever location the client's context was last used for
+				o["op"] = "remdep"
 			case 6:
 				// a schedule string of unusual shape (far in the future when it is accepted at all): an error
 				// or an accepted rule that does not run within the case - never a panic, and a refused
@@ -80,7 +88,7 @@ func genCronSys(r *rand.Rand, n int, tier string) []Case {
 		// the behaviour is that of an unprotected location, INCLUDING what the scheduled rules' actions
 		// write when the cron service runs them on a sub-context of the adder's context
 		cases = append(cases, Case{"locs": locs, "ids": []interface{}{ids[0], ids[1]}, "ops": ops, "linear": r.Intn(2) == 0,
-			"restart": restart, "keyed": r.Intn(3) == 0})
+			"restart": restart, "keyed": r.Intn(3) == 0, "sharedctx": r.Intn(2) == 0})
 	}
 	return cases
 }
@@ -134,11 +142,18 @@ func execCronSysCase(c Case) {
 		return
 	}
 	keyed := boolean(c["keyed"])
+	var shared *core.Context
 	newctx := func() *core.Context {
+		if shared != nil {
+			return shared // (a client that uses ONE context for all its requests)
+		}
 		cx := core.NewContext("rh")
 		cx.Verbosity = core.NOTHING
 		if keyed {
 			cx.WriteKey = "wk"
+		}
+		if boolean(c["sharedctx"]) {
+			shared = cx
 		}
 		return cx
 	}
@@ -161,6 +176,15 @@ func execCronSysCase(c Case) {
 			rule := map[string]interface{}{"schedule": fmt.Sprintf("+%dms", num(o["delay_ms"])), "action": action}
 			js, _ := json.Marshal(rule)
 			_, err = s.AddRule(newctx(), loc, id, string(js))
+		case "adddepsched":
+			if _, err = s.AddFact(newctx(), loc, "d"+id, `{"dep":"of `+id+`"}`); err == nil {
+				rule := map[string]interface{}{"schedule": fmt.Sprintf("+%dms", num(o["delay_ms"])), "action": action,
+					"deleteWith": []interface{}{"d" + id}}
+				js, _ := json.Marshal(rule)
+				_, err = s.AddRule(newctx(), loc, id, string(js))
+			}
+		case "remdep":
+			_, err = s.RemFact(newctx(), loc, "d"+id)
 		case "addfar":
 			rule := map[string]interface{}{"schedule": str(o["schedule"]), "action": action}
 			js, _ := json.Marshal(rule)
@@ -200,10 +224,20 @@ func execCronSysCase(c Case) {
 	time.Sleep(1100*time.Millisecond - time.Since(start))
 	// what must have run: the pairs whose last successful operation scheduled a rule
 	due := map[string]bool{}
+	depsched := map[string]bool{}
 	for _, oi := range list(c["ops"]) {
 		o := obj(oi)
 		if boolean(o["ok"]) {
-			due[str(o["loc"])+"/"+str(o["id"])] = str(o["op"]) == "addsched"
+			k := str(o["loc"]) + "/" + str(o["id"])
+			switch str(o["op"]) {
+			case "remdep":
+				if depsched[k] {
+					due[k], depsched[k] = false, false
+				}
+			default:
+				due[k] = str(o["op"]) == "addsched" || str(o["op"]) == "adddepsched"
+				depsched[k] = str(o["op"]) == "adddepsched"
+			}
 		}
 	}
 	var obs []interface{}
